@@ -1,5 +1,243 @@
-import Solvor.Cut.Model
-/-! Cut: property theorems only (helper lemmas live in Lemmas.lean). -/
+import Solvor.Cut.LemmasDual
+/-!
+Cut: the property theorems of C17 (helper lemmas are in `Lemmas.lean` / `LemmasDual.lean`).
+
+The property's notions are `ValidPlan Feas d plan` (every pattern admissible — `Fits W sizes`
+in cutting-stock mode, `InCols cols` for an explicit column set — and every demand met),
+`rolls plan` (the objective) and `IsMinRolls Feas d k` (`k` is the true minimum number of rolls).
+-/
 namespace Solvor.Cut
+
+/-! ### T-spec: the plan checker -/
+
+theorem fitsB_iff (W : Nat) (sizes : List Nat) (p : Pat) : fitsB W sizes p = true ↔ Fits W sizes p := by
+  simp [fitsB, Fits]
+
+theorem inColsB_iff (cols : List Pat) (p : Pat) : inColsB cols p = true ↔ InCols cols p := by
+  simp [inColsB, InCols]
+
+/-- C17 T-spec: the Boolean checker the driver evaluates on the implementation's plan and
+objective decides exactly "valid plan and objective = number of rolls". -/
+theorem plan_checker {Feas : Pat → Prop} {feasB : Pat → Bool} (hB : ∀ p, feasB p = true ↔ Feas p)
+    (d : List Nat) (plan : Plan) (obj : Nat) :
+    checkPlan feasB d plan obj = true ↔ ValidPlan Feas d plan ∧ obj = rolls plan := by
+  unfold checkPlan
+  simp only [Bool.and_eq_true, List.all_eq_true, decide_eq_true_eq, List.mem_range, beq_iff_eq]
+  constructor
+  · rintro ⟨⟨h1, h2⟩, h3⟩
+    exact ⟨⟨fun pc hpc => (hB _).1 (h1 pc hpc), h2⟩, h3⟩
+  · rintro ⟨⟨h1, h2⟩, h3⟩
+    exact ⟨⟨fun pc hpc => (hB _).2 (h1 pc hpc), h2⟩, h3⟩
+
+/-- The checker instantiated for cutting stock (`solve_cg`/`solve_bp` with `roll_width`). -/
+theorem plan_checker_cs (W : Nat) (sizes d : List Nat) (plan : Plan) (obj : Nat) :
+    checkPlan (fitsB W sizes) d plan obj = true ↔ ValidPlan (Fits W sizes) d plan ∧ obj = rolls plan :=
+  plan_checker (fitsB_iff W sizes) d plan obj
+
+/-- The checker instantiated for an explicit column set (custom pricing). -/
+theorem plan_checker_cols (cols : List Pat) (d : List Nat) (plan : Plan) (obj : Nat) :
+    checkPlan (inColsB cols) d plan obj = true ↔ ValidPlan (InCols cols) d plan ∧ obj = rolls plan :=
+  plan_checker (inColsB_iff cols) d plan obj
+
+-- non-vacuity: the 1-roll plan for width 7, sizes [2,1], demands [1,4] is accepted, the
+-- 2-roll plan solve_bp returns is accepted with objective 2 and rejected with objective 1
+example : checkPlan (fitsB 7 [2, 1]) [1, 4] [([1, 4], 1)] 1 = true := by decide
+example : checkPlan (fitsB 7 [2, 1]) [1, 4] [([3, 0], 1), ([0, 7], 1)] 2 = true := by decide
+example : checkPlan (fitsB 7 [2, 1]) [1, 4] [([3, 0], 1), ([0, 7], 1)] 1 = false := by decide
+example : checkPlan (fitsB 7 [2, 1]) [1, 4] [([3, 0], 1)] 1 = false := by decide
+
+/-! ### T-model: the exact optimum -/
+
+/-- C17: `minRolls` over a pattern list that is admissible and dominates every admissible pattern
+(after capping at the demands) returns the true minimum number of rolls; `none` means that no
+valid plan with at most `fuel` rolls exists. -/
+theorem minRolls_correct (Feas : Pat → Prop) (pats : List Pat) (d : List Nat) (fuel : Nat)
+    (hs : ∀ q ∈ pats, Feas q)
+    (hd : ∀ p, Feas p → ∃ q ∈ pats, ∀ i, min (p.getD i 0) (d.getD i 0) ≤ q.getD i 0) :
+    (∀ k, minRolls pats d fuel = some k → IsMinRolls Feas d k) ∧
+    (minRolls pats d fuel = none → ∀ plan, ValidPlan Feas d plan → fuel < rolls plan) := by
+  constructor
+  · intro k hk
+    obtain ⟨hc, hmin⟩ := search_some pats d fuel 0 [d] k hk (level_zero pats d) (by omega)
+    refine ⟨valid_of_cov hs hc, ?_⟩
+    intro plan hv
+    rcases Nat.lt_or_ge (rolls plan) k with h | h
+    · exact absurd (cov_of_valid hd hv) (hmin _ h)
+    · exact h
+  · intro hn plan hv
+    have := search_none pats d fuel 0 [d] hn (level_zero pats d) (by omega)
+    rcases Nat.lt_or_ge fuel (rolls plan) with h | h
+    · exact h
+    · exact absurd (cov_of_valid hd hv) (this _ (by omega))
+
+/-- C17 `cs_optimum_correct`: for every roll width, positive piece sizes and demands, the value
+computed by `csOpt` is attained by a valid cutting plan and no valid plan uses fewer rolls. -/
+theorem cs_optimum_correct (W : Nat) (sizes d : List Nat) (hpos : ∀ s ∈ sizes, 0 < s) :
+    (∀ k, csOpt W sizes d = some k → IsMinRolls (Fits W sizes) d k) ∧
+    (csOpt W sizes d = none → ∀ plan, ValidPlan (Fits W sizes) d plan → d.sum < rolls plan) :=
+  minRolls_correct (Fits W sizes) (enumPats W sizes d) d d.sum
+    (fun q hq => enumPats_sound sizes W d q hpos hq)
+    (fun p hp => enumPats_dom sizes W d p hpos hp)
+
+/-- The same for an explicit column set (custom pricing functions). -/
+theorem cols_optimum_correct (cols : List Pat) (d : List Nat) (fuel : Nat) :
+    (∀ k, minRolls cols d fuel = some k → IsMinRolls (InCols cols) d k) ∧
+    (minRolls cols d fuel = none → ∀ plan, ValidPlan (InCols cols) d plan → fuel < rolls plan) :=
+  minRolls_correct (InCols cols) cols d fuel (fun _ hq => hq)
+    (fun p hp => ⟨p, hp, fun _ => Nat.min_le_left _ _⟩)
+
+/-- One roll per demanded piece is always a valid cutting plan. -/
+theorem singles_plan (W : Nat) : ∀ (sizes d : List Nat), d.length = sizes.length →
+    (∀ s ∈ sizes, s ≤ W) → ∃ plan, ValidPlan (Fits W sizes) d plan ∧ rolls plan = d.sum := by
+  intro sizes
+  induction sizes with
+  | nil =>
+    intro d hl _
+    have : d = [] := List.length_eq_zero_iff.1 hl
+    subst this
+    exact ⟨[], ⟨by simp, by simp⟩, by simp [rolls]⟩
+  | cons s ss ih =>
+    intro d hl hW
+    cases d with
+    | nil => simp at hl
+    | cons d0 ds =>
+      obtain ⟨plan', hv, hr⟩ := ih ds (by simpa using hl) (fun x hx => hW x (List.mem_cons_of_mem _ hx))
+      have hz : ∀ (l : List Nat) (n : Nat), dotN l (List.replicate n 0) = 0 := by
+        intro l
+        induction l with
+        | nil => intro n; rfl
+        | cons a t iht => intro n; cases n <;> simp [List.replicate_succ, dotN, iht]
+      have hpc : ∀ (t : Plan) (i : Nat),
+          produced (t.map fun pc => ((0 :: pc.1 : Pat), pc.2)) (i + 1) = produced t i := by
+        intro t i; induction t with
+        | nil => simp [produced]
+        | cons pc t iht => simp only [List.map_cons, produced_cons, iht, List.getD_cons_succ]
+      have hp0 : ∀ (t : Plan), produced (t.map fun pc => ((0 :: pc.1 : Pat), pc.2)) 0 = 0 := by
+        intro t; induction t with
+        | nil => simp [produced]
+        | cons pc t iht => simp only [List.map_cons, produced_cons, iht, List.getD_cons_zero]; omega
+      have hrl : ∀ (t : Plan), rolls (t.map fun pc => ((0 :: pc.1 : Pat), pc.2)) = rolls t := by
+        intro t; simp [rolls, List.map_map, Function.comp_def]
+      refine ⟨((1 :: List.replicate ss.length 0 : Pat), d0) ::
+        plan'.map (fun pc => ((0 :: pc.1 : Pat), pc.2)), ⟨?_, ?_⟩, ?_⟩
+      · intro pc hpc'
+        rcases List.mem_cons.1 hpc' with rfl | h
+        · refine ⟨by simp, ?_⟩
+          simp only [dotN, hz]
+          have := hW s (by simp); omega
+        · obtain ⟨pc', hpc'', rfl⟩ := List.mem_map.1 h
+          obtain ⟨h1, h2⟩ := hv.feas pc' hpc''
+          exact ⟨by simp [h1], by simpa [dotN] using h2⟩
+      · intro i hi
+        rw [produced_cons]
+        cases i with
+        | zero => simp only [List.getD_cons_zero, hp0]; omega
+        | succ j =>
+          have := hv.covers j (by simpa using hi)
+          simp only [List.getD_cons_succ, hpc]
+          omega
+      · have : rolls (((1 :: List.replicate ss.length 0 : Pat), d0) ::
+            plan'.map (fun pc => ((0 :: pc.1 : Pat), pc.2))) = d0 + rolls plan' := by
+          rw [← hrl plan']; simp [rolls]
+        rw [this, hr]; simp
+
+/-- C17: on every well-formed cutting-stock instance (positive sizes not exceeding the width,
+one demand per size) `csOpt` returns a value, and it is the true minimum number of rolls. -/
+theorem cs_optimum_exists (W : Nat) (sizes d : List Nat) (hl : d.length = sizes.length)
+    (hpos : ∀ s ∈ sizes, 0 < s) (hW : ∀ s ∈ sizes, s ≤ W) :
+    ∃ k, csOpt W sizes d = some k ∧ IsMinRolls (Fits W sizes) d k := by
+  obtain ⟨hsome, hnone⟩ := cs_optimum_correct W sizes d hpos
+  cases h : csOpt W sizes d with
+  | some k => exact ⟨k, rfl, hsome k h⟩
+  | none =>
+    obtain ⟨plan, hv, hr⟩ := singles_plan W sizes d hl hW
+    have := hnone h plan hv
+    omega
+
+-- non-vacuity: on the instance where solve_bp answers 2 rolls / OPTIMAL (width 7, sizes [2,1],
+-- demands [1,4]) the hypotheses hold, `csOpt` returns a value and that value is at most 1
+example : ∃ k, csOpt 7 [2, 1] [1, 4] = some k ∧ IsMinRolls (Fits 7 [2, 1]) [1, 4] k ∧ k ≤ 1 := by
+  obtain ⟨k, hk, hmin⟩ := cs_optimum_exists 7 [2, 1] [1, 4] rfl (by decide) (by decide)
+  refine ⟨k, hk, hmin, ?_⟩
+  have hv := ((plan_checker_cs 7 [2, 1] [1, 4] [([1, 4], 1)] 1).1 (by decide)).1
+  exact hmin.2 _ hv
+-- a set-covering instance with explicit columns: 3 columns (2,0),(0,2),(1,1) cover (3,3)
+example : ValidPlan (InCols [[2, 0], [0, 2], [1, 1]]) [3, 3] [([1, 1], 3)] :=
+  ((plan_checker_cols [[2, 0], [0, 2], [1, 1]] [3, 3] [([1, 1], 3)] 3).1 (by decide)).1
+
+/-! ### T-model: the dual bound (solve_cg's lower-bound argument) -/
+
+/-- The knapsack DP decides dual feasibility over ALL patterns that fit the roll. -/
+theorem dualFeasible_iff (W : Nat) (sizes : List Nat) (y : List Rat) (hpos : ∀ s ∈ sizes, 0 < s) :
+    dualFeasible W sizes y = true ↔
+      y.length = sizes.length ∧ (∀ q ∈ y, 0 ≤ q) ∧ ∀ p, Fits W sizes p → dotQ y p ≤ 1 := by
+  unfold dualFeasible knapMax
+  simp only [Bool.and_eq_true, beq_iff_eq, List.all_eq_true, decide_eq_true_eq]
+  constructor
+  · rintro ⟨⟨hl, hy⟩, hk⟩
+    refine ⟨hl, hy, ?_⟩
+    rintro p ⟨hpl, hpw⟩
+    exact le_trans (knapRow_ub W sizes y hl.symm hpos W (le_refl _) p hpl hpw) hk
+  · rintro ⟨hl, hy, hp⟩
+    refine ⟨⟨hl, hy⟩, ?_⟩
+    obtain ⟨p, hpl, hpw, he⟩ := knapRow_attained W sizes y hl.symm W (le_refl _)
+    rw [← he]; exact hp p ⟨hpl, hpw⟩
+
+/-- C17 `dual_bound`: if `y ≥ 0` prices every pattern that fits the roll at most 1 (decided by
+the knapsack DP), then `⌈y·d⌉` rolls are needed by every valid plan. -/
+theorem dual_bound (W : Nat) (sizes d : List Nat) (y : List Rat) (plan : Plan)
+    (hpos : ∀ s ∈ sizes, 0 < s) (hy : dualFeasible W sizes y = true)
+    (hv : ValidPlan (Fits W sizes) d plan) : dualBound y d ≤ (rolls plan : Int) := by
+  obtain ⟨_, hy0, hf⟩ := (dualFeasible_iff W sizes y hpos).1 hy
+  unfold dualBound
+  rw [Rat.ceil_le_iff]
+  exact_mod_cast dual_bound_core hy0 hf hv
+
+-- non-vacuity: for width 7, sizes [2,1] the vector y = (2/7, 1/7) is dual feasible (checked by
+-- the DP), (1/2, 1/7) is not (pattern (3,1) is priced 23/14), and y certifies ⌈6/7⌉ = 1 roll
+-- for demands [1,4]: every valid plan uses at least one roll
+example : dualFeasible 7 [2, 1] [2/7, 1/7] = true := by decide +kernel
+example : dualFeasible 7 [2, 1] [1/2, 1/7] = false := by decide +kernel
+example : dualBound [2/7, 1/7] [1, 4] = 1 := by decide +kernel
+example (plan : Plan) (hv : ValidPlan (Fits 7 [2, 1]) [1, 4] plan) : (1 : Int) ≤ rolls plan := by
+  have h := dual_bound 7 [2, 1] [1, 4] [2/7, 1/7] plan (by decide) (by decide +kernel) hv
+  have e : dualBound [2/7, 1/7] [1, 4] = 1 := by decide +kernel
+  rwa [e] at h
+
+/-- The dual bound never exceeds the true optimum. -/
+theorem dual_bound_le_opt (W : Nat) (sizes d : List Nat) (y : List Rat) (k : Nat)
+    (hpos : ∀ s ∈ sizes, 0 < s) (hy : dualFeasible W sizes y = true)
+    (hk : IsMinRolls (Fits W sizes) d k) : dualBound y d ≤ (k : Int) := by
+  obtain ⟨⟨plan, hv, rfl⟩, _⟩ := hk
+  exact dual_bound W sizes d y plan hpos hy hv
+
+/-- The same bound for an explicit column set. -/
+theorem dual_bound_cols (cols : List Pat) (d : List Nat) (y : List Rat) (plan : Plan)
+    (hy : dualFeasibleCols cols y = true) (hv : ValidPlan (InCols cols) d plan) :
+    dualBound y d ≤ (rolls plan : Int) := by
+  unfold dualFeasibleCols at hy
+  simp only [Bool.and_eq_true, List.all_eq_true, decide_eq_true_eq] at hy
+  unfold dualBound
+  rw [Rat.ceil_le_iff]
+  exact_mod_cast dual_bound_core (Feas := InCols cols) hy.1 (fun p hp => hy.2 p hp) hv
+
+/-- The status rule of `solve_cg` (and of `solve_bp` with the proposed status patch) is sound:
+a valid plan whose number of rolls does not exceed the rounded-up value of a dual-feasible
+vector is a true minimum, so `OPTIMAL` is justified. -/
+theorem optimal_claim_sound (W : Nat) (sizes d : List Nat) (y : List Rat) (plan : Plan)
+    (hpos : ∀ s ∈ sizes, 0 < s) (hy : dualFeasible W sizes y = true)
+    (hv : ValidPlan (Fits W sizes) d plan)
+    (hc : claimsOptimal true (rolls plan) (dualBound y d) = true) :
+    IsMinRolls (Fits W sizes) d (rolls plan) := by
+  refine ⟨⟨plan, hv, rfl⟩, ?_⟩
+  intro plan' hv'
+  have h1 := dual_bound W sizes d y plan' hpos hy hv'
+  have h2 : (rolls plan : Int) ≤ dualBound y d := by simpa [claimsOptimal] using hc
+  exact_mod_cast le_trans h2 h1
+
+-- non-vacuity: the 1-roll plan of the witness instance is certified minimal by y = (2/7, 1/7)
+example : IsMinRolls (Fits 7 [2, 1]) [1, 4] (rolls [([1, 4], 1)]) :=
+  optimal_claim_sound 7 [2, 1] [1, 4] [2/7, 1/7] [([1, 4], 1)] (by decide) (by decide +kernel)
+    ((plan_checker_cs 7 [2, 1] [1, 4] [([1, 4], 1)] 1).1 (by decide)).1 (by decide +kernel)
 
 end Solvor.Cut
